@@ -347,9 +347,14 @@ def check_aligned(case):
     tag(kind)
     cell = list(lat.cell)
     shift = [F(s) for s in case["shift"]]
+    # the documented tolerance is an absolute 1e-12: stay a decade away from it (DESIGN section 3)
     if kind == "fraction":
+        if min(case["frac"], 1 - case["frac"]) * float(lat.cell[ax]) < 1e-11:
+            raise Reject()
         shift[ax] += F(case["frac"])
     if kind == "cellsize":
+        if abs(case["ratio"] - 1) * float(lat.cell[ax]) < 1e-11:
+            raise Reject()
         cell[ax] = cell[ax] * F(case["ratio"])
     p1 = [lat.pmin[d] + shift[d] * lat.cell[d] for d in range(nd)]
     p2 = [p1[d] + case["n2"][d] * cell[d] for d in range(nd)]
